@@ -404,7 +404,7 @@ func vfIntersect(a, b []int) []int {
 func TestVerifC03Probes(t *testing.T) {
 	vfSetup(t)
 	c := ev.For("C03")
-	c.Rule("probes: per case one generated bridge (seed), 2-5 probe connections of generated classes (empty, random bytes up to 20000 and floods of 64 KiB .. 1 MiB, valid handshake truncated / extended / one bit flipped in representative, padding, mark or MAC, wrong hour +-2/3, wrong identity, byte-identical replay of an accepted handshake, in half of the cases on a connection that was opened before the genuine client connected (whose genuine session has meanwhile carried a burst sized around the handshake's own length), low-order representatives with a valid MAC), each released in generated segments with the armed deadline optionally fired in between, ended by peer disconnect or by firing the virtual deadlines; the last connection goes to a second factory built from the same seed; oracle: accepted handshakes are remembered for at least the three hours they stay valid, zero bytes written, everything sent is consumed, close only after the last armed deadline fired (unless the peer left first), deadline armed before the first read, final deadline = accept + 30 s + d with one whole d in 0..59 common to all connections of the seed; non-trivial = any class other than 'empty'; fingerprint = class, parameters, plan")
+	c.Rule("probes: per case one generated bridge (seed), 2-5 probe connections of generated classes (empty, random bytes up to 20000 and floods of 64 KiB .. 1 MiB, valid handshake truncated / extended / one bit flipped in representative, padding, mark or MAC, wrong hour +-2/3, wrong identity, byte-identical replay of an accepted handshake (in one set-up of ten with the bridge's replay filter brought to its capacity of 102400 around it, the genuine handshake not among the eldest), in half of the cases on a connection that was opened before the genuine client connected (whose genuine session has meanwhile carried a burst sized around the handshake's own length), low-order representatives with a valid MAC), each released in generated segments with the armed deadline optionally fired in between, ended by peer disconnect or by firing the virtual deadlines; the last connection goes to a second factory built from the same seed; oracle: accepted handshakes are remembered for at least the three hours they stay valid, zero bytes written, everything sent is consumed, close only after the last armed deadline fired (unless the peer left first), deadline armed before the first read, final deadline = accept + 30 s + d with one whole d in 0..59 common to all connections of the seed; non-trivial = any class other than 'empty'; fingerprint = class, parameters, plan")
 	c.Assume("deadline values are judged as intervals around the server's own clock reading (a few ms wide); cases measured on a stalled machine (> 0.5 s between accept and first deadline call) are discarded and counted")
 	for _, cl := range vfProbeClasses {
 		c.Floor("probe-"+cl+"/probe", 0.03)
@@ -458,6 +458,17 @@ func TestVerifC03Probes(t *testing.T) {
 						defer ec.n.Shutdown()
 					}
 				}
+				// one replay set-up in ten: the bridge is busy - its replay filter is brought to
+				// capacity around the genuine handshake (50 older synthetic values before it,
+				// the rest behind it, then one more genuine client): the genuine handshake is
+				// not among the eldest, so it must still be remembered
+				atCap := false
+				if osf, isO := sf.(*obfs4ServerFactory); isO && osf.replayFilter != nil && rapid.IntRange(0, 9).Draw(rt, "filterAtCapacity") == 0 {
+					atCap = true
+					for i := 0; i < 50; i++ {
+						osf.replayFilter.TestAndSet(time.Now(), detrand.Bytes(rk^0xc03a000000000+uint64(i), 16))
+					}
+				}
 				hs, ok, resp0, cl0, sc0, err := vfAcceptOne(sf, br, ent, 0)
 				if sc0 != nil {
 					defer sc0.n.Shutdown()
@@ -472,6 +483,18 @@ func TestVerifC03Probes(t *testing.T) {
 					rt.Fatalf("VIOL[c03-valid-rejected]: a valid fresh handshake was not accepted (set-up of the replay class): %v", sc0.ep.SetupErr())
 				}
 				prior = hs
+				if atCap {
+					osf := sf.(*obfs4ServerFactory)
+					for i := 0; i < 102400-51; i++ {
+						osf.replayFilter.TestAndSet(time.Now(), detrand.Bytes(rk^0xc03b000000000+uint64(i), 16))
+					}
+					if _, ok2, _, _, scx, _ := vfAcceptOne(sf, br, ent, 0); scx != nil {
+						defer scx.n.Shutdown()
+						if !ok2 && vfHourNow() == hour0 {
+							rt.Fatalf("VIOL[c03-valid-rejected]: a valid fresh handshake was not accepted by a bridge whose replay filter is full")
+						}
+					}
+				}
 				// the genuine session goes on: traffic in one segment, sized around the
 				// handshake's own length (what the bridge remembers about the handshake
 				// must not live in memory that session traffic reuses)
@@ -853,7 +876,7 @@ func TestVerifC04History(t *testing.T) {
 func TestVerifC04NearCapacity(t *testing.T) {
 	vfSetup(t)
 	c := ev.For("C04")
-	c.Rule("near-capacity: per fill level N in {1000, 86399, 86400, 100000, 102398} one fresh server factory: a real handshake A is accepted, N synthetic values are inserted into the factory's replay filter through its exported TestAndSet (so that N+1 < 102400 handshakes are remembered), then a byte-identical replay of A must be refused like invalid input and a fresh handshake B must be accepted; plus one mixed-ages case (three back-dated synthetic values that reach the TTL 2 s after a real handshake was accepted: after 3 s and an unrelated handshake the real one must still be refused as a replay); non-trivial = N >= 86399; fingerprint = N")
+	c.Rule("near-capacity: per fill level N in {1000, 86399, 86400, 100000, 102398} one fresh server factory: a real handshake A is accepted, N synthetic values are inserted into the factory's replay filter through its exported TestAndSet (so that N+1 < 102400 handshakes are remembered), then a byte-identical replay of A must be refused like invalid input and a fresh handshake B must be accepted; plus one at-capacity case (50 eldest synthetic values, a real handshake, synthetic values up to exactly 102400, five fresh handshakes each evicting one eldest value: the real one must still be refused as a replay) and one mixed-ages case (three back-dated synthetic values that reach the TTL 2 s after a real handshake was accepted: after 3 s and an unrelated handshake the real one must still be refused as a replay); non-trivial = N >= 86399; fingerprint = N")
 	for idx, n := range []int{1000, 86399, 86400, 100000, 102398} {
 		br := vfBridge{ID: refobfs4.NewIdentity(vfEnt(0xc04c0+uint64(idx))(52)), Seed: vfEnt(0xc04d0 + uint64(idx))(24)}
 		ent := vfEnt(0xc04e0 + uint64(idx))
@@ -913,6 +936,68 @@ func TestVerifC04NearCapacity(t *testing.T) {
 			t.Fatalf("VIOL[c04-fresh-rejected]: a fresh handshake was not accepted with %d handshakes remembered (err %v)", n+2, err)
 		}
 		c.Case(ev.Hash("near-capacity", n), n >= 86399, []string{"near-capacity"}, func() any { return map[string]any{"unit": "near-capacity", "remembered": n + 1} })
+	}
+	// at capacity: 50 synthetic values first (the eldest), then a real handshake A,
+	// then synthetic values up to exactly 102400 remembered; every further
+	// handshake evicts ONE eldest value (oldest-first, C11) - never A, which is
+	// younger than 50 others - so A stays a replay while five fresh handshakes
+	// are accepted.
+	{
+		br := vfBridge{ID: refobfs4.NewIdentity(vfEnt(0xc0530)(52)), Seed: vfEnt(0xc0531)(24)}
+		ent := vfEnt(0xc0532)
+		sf, err := vfServerFactory(br)
+		if err != nil {
+			t.Fatalf("VIOL[c04-serverfactory]: %v", err)
+		}
+		osf := sf.(*obfs4ServerFactory)
+		hour0 := vfHourNow()
+		for i := 0; i < 50; i++ {
+			osf.replayFilter.TestAndSet(time.Now(), detrand.Bytes(0xc0540000000+uint64(i), 16))
+		}
+		hs, accepted, _, _, sc0, err := vfAcceptOne(sf, br, ent, 0)
+		if sc0 != nil {
+			defer sc0.n.Shutdown()
+		}
+		if err != nil || !accepted {
+			if vfHourNow() != hour0 {
+				t.Skip("hour changed")
+			}
+			t.Fatalf("VIOL[c04-fresh-rejected]: a fresh handshake was not accepted (err %v)", err)
+		}
+		for i := 0; i < 102400-51; i++ {
+			osf.replayFilter.TestAndSet(time.Now(), detrand.Bytes(0xc0550000000+uint64(i), 16))
+		}
+		for k := 0; k < 5; k++ {
+			_, acc, _, _, scx, err := vfAcceptOne(sf, br, ent, 0)
+			if scx != nil {
+				defer scx.n.Shutdown()
+			}
+			if err != nil || !acc {
+				if vfHourNow() != hour0 {
+					t.Skip("hour changed")
+				}
+				t.Fatalf("VIOL[c04-fresh-rejected]: a fresh handshake was not accepted by a bridge whose replay filter is full (err %v)", err)
+			}
+		}
+		sc, err := vfOpenServerConn(sf)
+		if sc != nil {
+			defer sc.n.Shutdown()
+		}
+		if err != nil {
+			t.Fatalf("VIOL[c04-wedge]: %v", err)
+		}
+		sc.n.Inject(wire.A, hs)
+		sc.n.ReleaseAll(wire.A)
+		if err := sc.n.WaitQuiescent(wire.B); err != nil {
+			t.Fatalf("VIOL[c04-wedge]: %v", err)
+		}
+		if w := sc.n.Written(wire.B); w != 0 || (sc.ep.SetupDone() && sc.ep.SetupErr() == nil) {
+			if vfHourNow() != hour0 {
+				t.Skip("hour changed")
+			}
+			t.Fatalf("VIOL[c04-accepted]: with the replay filter at capacity (102400 remembered) five further handshakes were accepted, each evicting one eldest value; the replay of a handshake that 50 older values precede was accepted again (server wrote %d bytes): a full filter must evict oldest-first, not forget younger handshakes", w)
+		}
+		c.Case(ev.Hash("at-capacity"), true, []string{"near-capacity", "at-capacity"}, func() any { return map[string]any{"unit": "near-capacity", "case": "at capacity"} })
 	}
 	// mixed ages: an older remembered value reaches the TTL while a younger
 	// accepted handshake is still inside it - only the old one may be forgotten.
